@@ -360,6 +360,8 @@ def simulator_chain(ctx, repo):
     if nxt is None:
         return
     M = nxt.value.right
+    nn = g.nodes_for(nxt)
+    M = g.expand(M, at=nn[0] if nn else None, consts=fi.mod.consts)  # `segment_count = ...` style aliases
     try:
         m = eval_resaff(M, S, Ltext, fold)
     except Unsupported as e:
